@@ -41,7 +41,13 @@ META = {
     "zoom_out(k) when the shape divides and back again, gbox*T / T*gbox associate, commute with each other and with "
     "views (proved and evaluated on the real objects); coordinates keys / order / resolutions by kind of CRS and the "
     "geographic_extent dispatch (kind decided by pyproj independently); qr2sample contract (count, inside the padded "
-    "pixel rectangle, fixed sequence under offset, corners with edges) as an oracle.",
+    "pixel rectangle, fixed sequence under offset, corners with edges) as an oracle.  Final increment (Model/C02Seq, "
+    "Props/C02Seq): qr2sample modelled over C20's quasiRandomR2 and compared bit-exactly through C14's fl64 (inside the "
+    "padded rectangle, count, offset law for every rounding); the structure of footprint / geographic_extent with "
+    "shapely buffer, densification and reprojection as parameters (buffer first, step from the un-buffered bounding box, "
+    "same-CRS shortcut, target CRS) tied through the interposed plan; units of coordinates by kind of CRS; gbox[obj] for "
+    "non-index objects with its own error type (TypeError / ValueError / AttributeError from len / Sequence / entries); "
+    "links C02∘C04 (GeoboxTiles tile = public index form), C02∘C14 (views of grid tiles), flip∘crop, zoom_out∘pad.",
     "note": "Trusted: Lean kernel + {propext, Classical.choice, Quot.sound}; IEEE rounding is not modelled (theorems "
     "over exact rationals, doubles sampled with 1e-9 relative slack, shapes exact); square roots of the "
     "rotated-resolution decomposition enter as witnesses (numpy.linalg trusted); the GCP polynomial fit is an abstract "
